@@ -760,7 +760,7 @@ func checkIdleExclusive(c *Ctx, fns []*ssa.Function, lf *lockFacts) {
 		hadWaiter := false
 		for _, g := range guardsOfInstr(site) {
 			if cm, ok := g.asCmp(); ok && isNilConst(cm.Y) && cm.Op == token.NEQ {
-				if k, ok := loadedField(cm.X); ok && k == T+"reusableConn.waitingResp" {
+				if waiterOrNil(cm.X, T+"reusableConn.waitingResp", 0) {
 					hadWaiter = true
 				}
 			}
@@ -822,6 +822,18 @@ func checkSurplusReplyCloses(c *Ctx) {
 		return
 	}
 	n := 0
+	// the value the reply is finally sent on: the waiter that was taken out of the slot — or nil when the reply is not
+	// the one that waiter waits for (id mismatch, D21). The decision "nobody waits for this reply" is the test of THAT value.
+	var sendChan ssa.Value
+	eachInstr(rl, func(in ssa.Instruction) {
+		if sel, ok := in.(*ssa.Select); ok {
+			for _, st := range sel.States {
+				if st.Dir == types.SendOnly && waiterOrNil(st.Chan, T+"reusableConn.waitingResp", 0) {
+					sendChan = st.Chan
+				}
+			}
+		}
+	})
 	eachInstr(rl, func(in ssa.Instruction) {
 		iff, ok := in.(*ssa.If)
 		if !ok {
@@ -833,7 +845,7 @@ func checkSurplusReplyCloses(c *Ctx) {
 			if !ok || cm.Op != token.EQL || !isNilConst(cm.Y) {
 				continue
 			}
-			if k, ok := loadedField(cm.X); !ok || k != T+"reusableConn.waitingResp" {
+			if !waiterOrNil(cm.X, T+"reusableConn.waitingResp", 0) || (sendChan != nil && cm.X != sendChan) {
 				continue
 			}
 			n++
@@ -1125,4 +1137,30 @@ func checkWaiterInsertAbsent(c *Ctx, lf *lockFacts) (*ssa.Function, ssa.Value) {
 	}
 	return inserter, insertKeyBase
 
+}
+
+
+// waiterOrNil: v is the value loaded from the single waiter slot (field key k), or a phi all of whose edges are that
+// or nil (the reader drops the waiter when the reply is not the one it waits for).
+func waiterOrNil(v ssa.Value, k string, depth int) bool {
+	if depth > 4 {
+		return false
+	}
+	if kk, ok := loadedField(v); ok && kk == k {
+		return true
+	}
+	if ph, ok := v.(*ssa.Phi); ok {
+		some := false
+		for _, e := range ph.Edges {
+			if isNilConst(e) {
+				continue
+			}
+			if !waiterOrNil(e, k, depth+1) {
+				return false
+			}
+			some = true
+		}
+		return some
+	}
+	return false
 }
